@@ -1378,7 +1378,7 @@ func TestWireFanout(t *testing.T) {
 	evid.Rule("wire (layer C): rapid over one publisher (stream fed directly | scripted RTSP RECORD session) publishing <=60 generated packets (tagged H.264/H.265 units in every packetisation, optional AAC, RTCP on the control channels) + sentinel + fillers, and 1..3 real clients of the in-process server over {RTSP/TCP interleaved, RTSP/UDP, ws-rtsp, WSP control+data, HTTP-FLV, ws-flv} attaching at generated positions with generated channel numbers / track subsets, the audience leaving by disconnect or TEARDOWN; oracle: strict framing, every item a published packet byte-identical on the negotiated channel, at most once, publish order, complete from the read PLAY response (FLV: from the registration) up to the sentinel; FLV units by embedded tags; twin run with the target alone. Non-trivial = >=2 clients of different transports alive at once and an attach or detach strictly inside the publish sequence")
 	evid.Assume("wire: an HTTP-FLV / ws-flv consumer has no wire-level attach signal; its attach point is the moment the stream lists a consumer with the client's address (read in-process)")
 	evid.Assume("wire: gorilla/websocket frames the client side of ws-rtsp / WSP / ws-flv; what is judged is ipchub's use of message boundaries and the bytes inside")
-	evid.Checks(300, 3000)
+	evid.Checks(200, 3000)
 	rapid.Check(t, func(t *rapid.T) {
 		pl := genWirePlan(t)
 		evid.Eval(1)
@@ -1435,7 +1435,7 @@ func TestWirePlayAnswerThenPublish(t *testing.T) {
 	s.SetCacheGop(false)
 	for _, kind := range []string{"tcp", "ws", "udp", "wsp"} {
 		missed := 0
-		const rounds = 40
+		const rounds = 25
 		for r := 0; r < rounds; r++ {
 			l := &wlog{cdc: esgen.H264, vseq: 10, vts: 1000, vssrc: 77}
 			first := l.extraPacket() // tagged like a sentinel, published first
